@@ -22,7 +22,7 @@ RULE = ('seeded operation sequences (set/overwrite/delete/merge_in/update/pop/it
 ASSUMPTIONS = ['values are drawn from the classes _clean_attribute distinguishes; str subclasses and exotic Sequence '
                'implementations are not generated',
                'order after overwriting an existing key may be either refreshed or kept (both accepted, consistently)']
-REQUIRE = {'attr_ops_checked': 500, 'evictions_seen': 20, 'merges_checked': 50, 'create_checked': 10}
+REQUIRE = {'attr_ops_checked': 500, 'evictions_seen': 20, 'merges_checked': 50, 'create_checked': 10, 'wire_sessions': 8, 'wire_restarts': 3}
 
 
 def plan(tier, seed):
@@ -33,7 +33,7 @@ def plan(tier, seed):
     specs += split_seeds('m%s' % seed, 1200 * n, 3, 'merge')
     specs += split_seeds('c%s' % seed, 300 * n, 2, 'create')
     specs += split_seeds('t%s' % seed, 6 * n, 2, 'threads')
-    specs += split_seeds('w%s' % seed, 6 * n, 2, 'wire')
+    specs += split_seeds('w%s' % seed, 16 if n == 1 else 6 * n, 4, 'wire')
     return specs
 
 
@@ -176,7 +176,8 @@ def case_attrs(seed, out, spec):
         elif c == 6:
             ops.append(('del', r.pick(KEYS[:8])))
         elif c == 7:
-            ops.append(('merge_in', [(r.pick(KEYS), gen_value(r, valid_only=(cap == 0))) for _ in range(r.randrange(0, 4))]))
+            ops.append(('merge_in', [(r.pick(KEYS), gen_value(r, valid_only=(cap == 0))) for _ in range(r.randrange(0, 4))],
+                        r.pick(['dict', 'dict', 'bounded', 'bounded_frozen'])))
         elif c == 8:
             ops.append(('pop', r.pick(KEYS[:8])))
         else:
@@ -257,8 +258,14 @@ def case_attrs(seed, out, spec):
                                       replay=replay_spec(spec, seed))
                         return
             elif kind == 'merge_in':
-                ba.merge_in(OrderedDict(op[1]))
-                for k, v in OrderedDict(op[1]).items():
+                src = OrderedDict(op[1])
+                if len(op) > 2 and op[2] != 'dict':
+                    # what a decorator plugin hands back: another attribute container (it has cleaned its own content)
+                    src = BoundedAttributes(attributes=src, immutable=(op[2] == 'bounded_frozen'))
+                    out.count('merges_of_a_bounded_container')
+                items = list(src.items())
+                ba.merge_in(src)
+                for k, v in items:
                     m_apply(lambda m: m.set(k, v, True))
             elif kind == 'pop':
                 present = op[1] in ref().d
@@ -591,8 +598,14 @@ def case_wire(seed, out, spec):
         env['DEEP_RESOURCE_ATTRIBUTES'] = ','.join('%s=%s' % kv for kv in env_attrs.items())
     if env_service:
         env['DEEP_SERVICE_NAME'] = env_service
+    # half of the sessions shut the agent down, change the environment and start the same agent again: what it then
+    # reports is the resource of the second start
+    restart = r.chance(0.5)
+    second = {'DEEP_SERVICE_NAME': r.pick(['svc-second', None]),
+              'DEEP_RESOURCE_ATTRIBUTES': r.pick(['e1=second,k1=second', 'shared=second', None])} if restart else None
     res = e2e.call_child('vf.props.c18', 'child_wire', {
-        'plugins': [{'name': 'WireRes%d' % i, 'order': o, 'attrs': dict(a)} for o, i, a in pl_attrs]}, env=env)
+        'plugins': [{'name': 'WireRes%d' % i, 'order': o, 'attrs': dict(a)} for o, i, a in pl_attrs],
+        'second_env': second}, env=env)
     if res.get('inconclusive'):
         out.inconc('wire: ' + res['inconclusive'])
         return
@@ -616,7 +629,21 @@ def case_wire(seed, out, spec):
     seq.sort(key=lambda t: t[0])  # stable: ties keep configuration order
     for _, _, a in seq:
         exp.update(a)
-    for what, attrs in (('poll', res['poll_resource']), ('snapshot', res['snapshot_resource'])):
+    observed = [('poll', res['poll_resource'], exp), ('snapshot', res['snapshot_resource'], exp)]
+    if restart:
+        exp2 = OrderedDict([('telemetry.sdk.language', 'python'), ('telemetry.sdk.name', 'deep'),
+                            ('telemetry.sdk.version', deep.version.__version__)])
+        if second['DEEP_RESOURCE_ATTRIBUTES']:
+            exp2.update(kv.split('=') for kv in second['DEEP_RESOURCE_ATTRIBUTES'].split(','))
+        if second['DEEP_SERVICE_NAME']:
+            exp2['service.name'] = second['DEEP_SERVICE_NAME']
+        if not exp2.get('service.name'):
+            exp2['service.name'] = 'unknown_service:python'
+        for _, _, a in seq:
+            exp2.update(a)
+        observed.append(('poll after the second start', res.get('second_poll_resource'), exp2))
+        out.count('wire_restarts')
+    for what, attrs, exp in observed:
         if attrs is None:
             out.inconc('wire: no %s observed' % what)
             return
@@ -628,7 +655,8 @@ def case_wire(seed, out, spec):
         if attrs != dict(exp):
             out.violation('wire:precedence', '%s resource %s != expected (built-in<env<plugins in order) %s' % (
                 what, short(attrs, 500), short(dict(exp), 500)),
-                {'env': env, 'plugins': short(pl_attrs, 500)}, replay_spec(spec, seed))
+                {'env': env, 'environment_at_second_start': second, 'plugins': short(pl_attrs, 500)},
+                replay_spec(spec, seed))
             return
     out.count('wire_sessions')
     out.case({'env': env, 'plugins': short(pl_attrs, 800)}, nontrivial=True,
@@ -662,13 +690,27 @@ def child_wire(arg):
             srv.wait_snapshots(1, 0.3)
         poll_res = e2e.attrs_of(srv.polls[0][0].resource.attributes)
         snap_res = e2e.attrs_of(srv.snapshots[0][0].resource) if srv.snapshots else None
+        second_res = None
+        if arg.get('second_env') is not None:
+            import os
+            agent.shutdown()
+            for k, v in arg['second_env'].items():
+                if v is None:
+                    os.environ.pop(k, None)
+                else:
+                    os.environ[k] = v
+            n = len(srv.polls)
+            agent.start()
+            if not srv.wait_polls(n + 1):
+                return {'inconclusive': 'no poll after the second start'}
+            second_res = e2e.attrs_of(srv.polls[-1][0].resource.attributes)
     finally:
         try:
             agent.shutdown()
         except BaseException:  # noqa
             pass
         srv.stop()
-    return {'poll_resource': poll_res, 'snapshot_resource': snap_res}
+    return {'poll_resource': poll_res, 'snapshot_resource': snap_res, 'second_poll_resource': second_res}
 
 
 CASES = {'attrs': case_attrs, 'frozen': case_frozen, 'merge': case_merge, 'create': case_create,
